@@ -156,6 +156,21 @@ def shrink(req):
     for i, r in enumerate(R):
         if len(r.split(":")) > 7:
             yield emit(R=R[:i] + [":".join(r.split(":")[:7])] + R[i + 1:])
+    # ... or one option at a time; a type spelling loses one typedef / keyword at a time
+    for i, r in enumerate(R):
+        p = r.split(":")
+        if len(p) > 7 and "+" in p[7] or (len(p) > 7 and p[7].startswith("T")):
+            opts = p[7].split("+")
+            for k, o in enumerate(opts):
+                if len(opts) > 1:
+                    rest = opts[:k] + opts[k + 1:]
+                    yield emit(R=R[:i] + [":".join(p[:7] + ["+".join(rest)])] + R[i + 1:])
+                if o.startswith("T"):
+                    toks = re.findall(r"N|a|c|d\d+|e\d+|k|x|p", o[1:])
+                    for t in range(len(toks)):
+                        simpler = "T" + "".join(toks[:t] + toks[t + 1:])
+                        if len(simpler) > 1:
+                            yield emit(R=R[:i] + [":".join(p[:7] + ["+".join(opts[:k] + [simpler] + opts[k + 1:])])] + R[i + 1:])
     for i, h in enumerate(H):
         p = h.split(":")
         plain = ":".join([p[0], _plain(p[1]), p[2], p[3]])
